@@ -1209,3 +1209,141 @@ for _n, _sp in (("compute", spec_compute), ("persist", spec_persist), ("to_dask_
         # persist of a NumPy-backed signal is np.asarray (no-op); of a Dask-backed one stays Dask
         pass
     CONTRACTS.append(_cc2)
+
+
+# --------------------------------------------------------------------------- assignment to attributes after construction (C16)
+
+def _assign_body(interp, ctx, a, k):
+    z, name, val = a
+    interp.set_attr(z, name, val, ctx)
+    # observable state after the assignment
+    return {n: interp.get_attr(z, n, ctx) for n in _PUBLIC[z.cls.name] if True}
+
+
+_PUBLIC = {c: ["sample_rate", "start_time", "meta"] for c in SIGNAL_CLASSES}
+for _c in RADIO:
+    _PUBLIC[_c] = _PUBLIC[_c] + ["center_freq", "chan_bw", "freq_align"]
+_PUBLIC["DualPolarizationSignal"] = _PUBLIC["DualPolarizationSignal"] + ["pol_type"]
+
+
+def spec_assign(c, z, name, val):
+    """Assignment validates exactly like construction: a violated clause raises ValueError and
+    leaves the object unchanged; otherwise only that attribute changes (alignment normalised)."""
+    g = c.view(z)
+    cur = g.attrs()
+    if name not in cur:
+        raise PyExc("ANY", "not a validated attribute")
+    new = dict(cur)
+    new[name] = val
+    if name == "meta" and val is not None and not isinstance(val, dict):
+        if isinstance(val, (list, tuple)) and all(isinstance(p, tuple) and len(p) == 2 for p in val):
+            new["meta"] = dict(val)
+        else:
+            raise PyExc("ValueError", "meta must be a dict")
+    if name == "chan_bw" and g.is_a("BasebandSignal"):
+        pass        # a baseband signal's chan_bw is only tied to sample_rate at construction (statement)
+    r = construct_attrs_only(c, g, new, name)
+    return r
+
+
+def construct_attrs_only(c, g, attrs, changed):
+    """Validate one attribute with the class contract (reusing the constructor spec on the same data)."""
+    from pyvc.speclib import check_qty, ALIGN_A as _AL
+    v = attrs[changed]
+    if changed in ("sample_rate", "chan_bw"):
+        check_qty(c, v, FREQ_DIM, True, changed)
+    elif changed == "center_freq":
+        check_qty(c, v, FREQ_DIM, False, changed)
+    elif changed == "start_time":
+        if v is not None and (not isinstance(v, STime) or not v.is_scalar):
+            raise PyExc("ValueError", "start_time")
+    elif changed == "freq_align":
+        if not isinstance(v, str) or v not in _AL:
+            raise PyExc("ValueError", "freq_align")
+        odd = c.branch(V.eq(V.mod_int(c.ctx, g.nchan, 2), 1), "nchan odd")
+        attrs[changed] = "center" if odd else v
+    elif changed == "pol_type":
+        if not isinstance(v, str) or v not in ("linear", "circular"):
+            raise PyExc("ValueError", "pol_type")
+    return attrs
+
+
+def inst_assign():
+    out = []
+    cases = []
+    for cls in ("Signal", "RadioSignal", "BasebandSignal", "DualPolarizationSignal"):
+        for pv in ("sr_ok", "sr_wrong_unit", "sr_number", "sr_array", "t0_time", "t0_none", "t0_number", "t0_array", "meta_dict", "meta_int", "meta_none"):
+            cases.append((cls, pv))
+        if cls != "Signal":
+            for pv in ("cf_ok", "cf_wrong_unit", "cf_number", "bw_ok", "bw_wrong_unit", "align_bottom", "align_top", "align_bogus", "align_none"):
+                cases.append((cls, pv))
+        if cls == "DualPolarizationSignal":
+            for pv in ("pol_linear", "pol_bogus"):
+                cases.append((cls, pv))
+    for cls, pv in cases:
+        def build(interp, ctx, nm, cls=cls, pv=pv):
+            U = interp.stubs.units
+            z = mk_signal(interp, ctx, "z", cls, has_meta=True, align="center", nm=nm)
+            name = {"sr": "sample_rate", "t0": "start_time", "meta": "meta", "cf": "center_freq", "bw": "chan_bw", "align": "freq_align", "pol": "pol_type"}[pv.split("_")[0]]
+            val = {
+                "sr_ok": lambda: Qty(nm.real("p_x", 3), FREQ_DIM, U["kHz"]), "sr_wrong_unit": lambda: Qty(nm.real("p_x", 3), TIME_DIM, U["s"]),
+                "sr_number": lambda: nm.real("p_x", 3), "sr_array": lambda: Qty(sym_array("p_arr", (2,), "float64", nm=nm), FREQ_DIM, U["Hz"]),
+                "t0_time": lambda: STime(nm.real("p_t0", 77), "mjd", 3), "t0_none": lambda: None, "t0_number": lambda: nm.real("p_x", 59000),
+                "t0_array": lambda: STime(sym_array("p_tarr", (2,), "float64", nm=nm)),
+                "meta_dict": lambda: {"q": 2}, "meta_int": lambda: 5, "meta_none": lambda: None,
+                "cf_ok": lambda: Qty(nm.real("p_x", 3), FREQ_DIM, U["MHz"]), "cf_wrong_unit": lambda: Qty(nm.real("p_x", 3), TIME_DIM, U["s"]), "cf_number": lambda: nm.real("p_x", 3),
+                "bw_ok": lambda: Qty(nm.real("p_x", 3), FREQ_DIM, U["MHz"]), "bw_wrong_unit": lambda: Qty(nm.real("p_x", 3), (), U["one"]),
+                "align_bottom": lambda: "bottom", "align_top": lambda: "top", "align_bogus": lambda: "middle", "align_none": lambda: None,
+                "pol_linear": lambda: "linear", "pol_bogus": lambda: "elliptical",
+            }[pv]()
+            return (z, name, val), {}
+        out.append(Instance(f"{cls},{pv}", build))
+    return out
+
+
+def _assign_real(pb, a, k):
+    z, name, val = a
+    setattr(z, name, val)
+    return {n: getattr(z, n) for n in _PUBLIC[type(z).__name__]}
+
+
+_as = Contract("pulsarbat.core.Signal.<attribute assignment>", spec_assign, inst_assign(), props={"C16": NO_THM + r"(?!.*/frame\.)"}, body=_assign_body)
+_as.real_call = _assign_real
+_as.c14_exempt = True          # assignment to an attribute is the explicit, sanctioned mutation of that object
+CONTRACTS.append(_as)
+
+
+# --------------------------------------------------------------------------- get_axis (C16 helper)
+
+def spec_get_axis(c, self, axis):
+    g = c.view(self)
+    nd = g.data.ndim
+    labels = {"time": 0}
+    if g.is_a("RadioSignal"):
+        labels["freq"] = 1
+    if g.is_a("FullStokesSignal") or g.is_a("DualPolarizationSignal"):
+        labels["pol"] = 2
+    if isinstance(axis, str):
+        if axis not in labels:
+            raise PyExc("ValueError", "invalid axis label")
+        ax = labels[axis]
+    elif V.is_intlike(axis) or isinstance(axis, bool):
+        ax = axis
+    else:
+        raise PyExc("ValueError", "invalid axis")
+    c.raise_if(V.Or(V.lt(ax, -nd), V.le(nd, ax)), "ValueError", "axis out of range")
+    return ax
+
+
+def inst_get_axis():
+    out = []
+    for cls in ("Signal", "RadioSignal", "FullStokesSignal", "DualPolarizationSignal"):
+        for ax in ("time", "freq", "pol", "bogus", "int", None):
+            def build(interp, ctx, nm, cls=cls, ax=ax):
+                z = mk_signal(interp, ctx, "z", cls, nm=nm)
+                return (z, nm.int("ax", 1) if ax == "int" else ax), {}
+            out.append(Instance(f"{cls},axis={ax}", build))
+    return out
+
+
+CONTRACTS.append(Contract("pulsarbat.core.Signal.get_axis", spec_get_axis, inst_get_axis(), props=("C16",)))
